@@ -8,7 +8,9 @@ pub(crate) fn convert_to_string(
 ) -> Result<Cow<'_, str>, ValueError> {
     let string = value.try_bytes_utf8_lossy()?;
     Ok(if to_lowercase {
-        Cow::Owned(string.to_lowercase())
+        // Not `str::to_lowercase`: its final-sigma rule depends on the surrounding text, so a
+        // substring would not fold to a substring of the folded string.
+        Cow::Owned(string.chars().flat_map(char::to_lowercase).collect())
     } else {
         string
     })
